@@ -236,6 +236,39 @@ static bool sc_pool_sched(long it) {
     return true;
 }
 
+// 11: heavy contention on the coroutine mutex: lock() and try_lock() from four threads while the owner stays inside long
+// enough for requests to pile up, so that unlock() hands over and rebuilds the owner-private queue all the time
+static bool sc_mutex_contended(long it) {
+    mutex mx;
+    long counter = 0; int inside = 0; bool bad = false;
+    const int per = 60;
+    std::atomic<int> started{0};
+    auto body = [&](int id) {
+        started.fetch_add(1);
+        while (started.load() < 4) spin();
+        for (int k = 0; k < per; k++) {
+            if ((k + id) % 5 == 0) {
+                auto own = mx.try_lock();
+                if (!own) continue;
+                if (++inside != 1) bad = true;
+                ++counter; --inside;
+                own.release();
+                continue;
+            }
+            mutex::ownership own(mx.lock());
+            if (++inside != 1) bad = true;
+            ++counter;
+            if ((k & 3) == 0) spin(); else for (volatile int z = 0; z < 100; z = z + 1) {}
+            --inside;
+            own.release();
+        }
+    };
+    std::thread a(body, 0), b(body, 1), c(body, 2), d(body, 3);
+    a.join(); b.join(); c.join(); d.join();
+    (void)it;
+    return !bad && counter > 0;
+}
+
 int main(int argc, char **argv) {
     if (argc < 2) return 2;
     cocls::verif::get_hooks().log = [](const char *id, long a, long) {
@@ -245,7 +278,7 @@ int main(int argc, char **argv) {
         std::printf("CASE %s\n", cs.name.c_str());
         std::fflush(stdout);
         for (auto &op : cs.ops) {
-            if (op.size() != 2 || op[0] < 1 || op[0] > 10 || op[1] < 0 || op[1] > 100000) { vh::print_obs({-1}); continue; }
+            if (op.size() != 2 || op[0] < 1 || op[0] > 11 || op[1] < 0 || op[1] > 100000) { vh::print_obs({-1}); continue; }
             bool ok = true;
             for (long it = 1; it <= op[1] && ok; it++) {
                 switch (op[0]) {
@@ -259,6 +292,7 @@ int main(int argc, char **argv) {
                     case 8: ok = sc_generator(it); break;
                     case 9: ok = sc_publisher(it); break;
                     case 10: ok = sc_pool_sched(it); break;
+                    case 11: ok = sc_mutex_contended(it); break;
                 }
             }
             vh::print_obs({ok ? 0L : 1L});
